@@ -351,11 +351,19 @@ def splitter_state_rule(ctx, crate, rule):
             if len(a) == 2 and strip_sites(a[1]) == cexpr:
                 pushed.add(mir.root_local_expr(a[0]))
     n = 0
+    pending = []
     for bi, si, st in b.stmts():
         if bi not in loop or st["k"] != "assign" or st["place"]["p"] or st["place"]["l"] not in pushed:
             continue
         l = st["place"]["l"]
-        e = b.expand_vars(strip_sites(b.rvalue_expr(st["rv"])))
+        sites = [(bi, b.expand_vars(strip_sites(b.rvalue_expr(st["rv"]))))]
+        raw = mir.peel(strip_sites(b.rvalue_expr(st["rv"])))
+        if raw[0] in ("var", "tmp") and len(b.defs.get(raw[1], [])) > 1:
+            # `state = if .. { a } else { b }`: every arm is a site of its own
+            sites = [(bi2, b.expand_vars(strip_sites(b.def_expr(bi2, si2)))) for bi2, si2 in b.defs[raw[1]] if bi2 in loop]
+        for bi, e in sites:
+            pending.append((l, bi, e))
+    for l, bi, e in pending:
         empty = (e[0] == "call" and last_seg(e[1]) == "new" and "String" in e[1]) or const_str(e) == ""
         if not empty:
             continue
@@ -375,5 +383,7 @@ def splitter_state_rule(ctx, crate, rule):
                         good = True
         ctx.ob(rule, b.path, "clearing `%s` is guarded by `%s == <current character>`" % (b.names.get(l), b.names.get(l)), good,
                key="%s|%s|state-cleared-unguarded|%s#%d" % (rule, b.path, b.names.get(l), n), where=b.loc(bi), crate=crate.kind,
-               detail=None if good else "a quoted region would end at any quote character: `echo \"it's; rm x\"` is split at the `;`")
+               detail=None if good else "a region of the splitter ends at a character other than the one that opened it: `echo \"it's; "
+               "rm x\"` is split at the `;` - or, for a region closed by a different character, a quoted occurrence of that "
+               "character inside ends it early and the quote that follows swallows every later `;` / `&&` / `||`")
     ctx.floor(rule, crate, "state-clearing sites in line_to_cmds", n, 2)
